@@ -254,10 +254,18 @@ def run_shim(job, res):
             for k in points:
                 if k >= N:
                     continue
-                for err in ERRNOS if ops[k][0] != "write" or k % 7 == 0 else [ERRNOS[k % 3]]:
+                errs = list(ERRNOS if ops[k][0] != "write" or k % 7 == 0 else [ERRNOS[k % 3]])
+                if ops[k][0] == "write":
+                    errs.append("short")        # the write is accepted only in part (disk full, file size limit)
+                for err in errs:
                     setup_prior(d, ext, prior, dataA, dataOld, layout)
                     eng = build(LB, path)
-                    sh = Shim("fail", at=k, err=err).install()
+                    if err == "short":
+                        sh = Shim("short", at=k).install()
+                        err = errno.ENOSPC
+                        res.count("short_writes")
+                    else:
+                        sh = Shim("fail", at=k, err=err).install()
                     raised = None
                     try:
                         eng.gw.tasks.persistence.save_sensors()
